@@ -286,7 +286,7 @@ Definition conv2d_triples (sx sw sy : tshape) (p0 p1 s0 s1 d0 d1 : nat)
           let x_addr := (x_c * xw + (tx - p1)) * xh + (ty - p0) in
           let w_addr := ((y_c * xc + x_c) * ww + w_x_inv) * wh + w_y_inv in
           [(bn * y_shift + y_addr, (bn * x_shift + x_addr, bn * w_shift + w_addr))]
-        else [])))))).
+        else []))))))).
 
 (* ---- max_pool2d: for each output address the candidate input addresses in scan order ---- *)
 Definition pool2d_red (sx sy : tshape) (w0 w1 p0 p1 s0 s1 : nat) : red :=
